@@ -38,6 +38,7 @@ def main():
     ap.add_argument("dir")
     ap.add_argument("--skip-suite", action="store_true")
     ap.add_argument("--no-check", action="store_true")
+    ap.add_argument("--no-demo", action="store_true", help="skip the demonstration runs (they were confirmed when the seed was kept)")
     ap.add_argument("--tier", default="quick")
     ap.add_argument("--prop")
     a = ap.parse_args()
@@ -47,7 +48,7 @@ def main():
     res = {"property": prop, "dir": d}
     ensure_wt()
     demo = os.path.join(d, "demo.rs")
-    has_demo = os.path.exists(demo)
+    has_demo = os.path.exists(demo) and not a.no_demo
     if has_demo:
         shutil.copyfile(demo, os.path.join(WT, "tests", "demo_seeded.rs"))
         rc, out = sh(["cargo", "test", "--offline", "--test", "demo_seeded"], cwd=WT)
